@@ -60,6 +60,12 @@ func evalFunctionCall(vm *r.VM, expr *syntax.FuncCallExpr) (r.Element, error) {
 func execMethodFunction(vm *r.VM, root r.Element, funcName *r.IDName, params []r.Element) (r.Element, error) {
 	switch robj := root.(type) {
 	case *value.Object:
+		// a method the object's type does not define cannot be called: say so BEFORE a call
+		// frame is made for it (no call ever starts; the frame would show up in the error
+		// report as a call made from line 1 of the type's module)
+		if !robj.HasMethod(funcName.GetLiteral()) {
+			return nil, zerr.MethodNotFound(funcName.GetLiteral())
+		}
 		// the object's methods run in the module that defines its class - not in whatever
 		// the class NAME happens to mean where the call is written (the caller may not have
 		// imported the type, or may have another type of the same name)
